@@ -64,6 +64,7 @@ def impl_bench(task):
     np.random.seed(task["perturb"] + 1)
     odeiv.SCRIPT["fracs"] = [1.0]
     odeiv.SCRIPT["hsug_by_stepper"] = task.get("hsug", {})
+    odeiv.SCRIPT["check_jac"] = True
     trains = []
     orig = S.SpikeGenerator.spike_times_from_json
     def wrap(stimuli, sim_time):
@@ -99,13 +100,16 @@ def impl_bench(task):
         S.StiffnessTester._draw_decision = origd
     names = [s["solver"] for s in res]
     steppers = [e[1] for e in odeiv.LOG if e[0] == "apply"]
+    jacdev = [e for e in odeiv.LOG if e[0] == "jacdev"]
+    worst_jac = max(jacdev, key=lambda e: e[2]) if jacdev else None
     starts = {}
     for e in odeiv.LOG:
         if e[0] == "apply" and e[1] not in starts:
             starts[e[1]] = {"t": e[2], "y": e[7]}
     del odeiv.LOG[:]
     return {"outcome": "Ok", "trains": trains, "decisions": decisions, "names": names,
-            "steppers": sorted(set(steppers)), "starts": starts}
+            "steppers": sorted(set(steppers)), "starts": starts, "jacobians_checked": len(jacdev),
+            "worst_jacobian": None if worst_jac is None else {"t": worst_jac[1], "dev": worst_jac[2], "y": worst_jac[3]}}
 
 
 HEADER = """From Coq Require Import ZArith QArith Qcanon List String.
@@ -216,6 +220,12 @@ def run(ctx):
                                            "replay": {"kind": "bench", "task": tasks[2 * k]}})
                     break
         dist["bench_after_other_benchmarks"] = dist.get("bench_after_other_benchmarks", 0) + int(bool(tasks[2 * k]["pre"]))
+        dist["jacobians_checked_during_benchmarks"] = dist.get("jacobians_checked_during_benchmarks", 0) + r1.get("jacobians_checked", 0)
+        wj = r1.get("worst_jacobian")
+        if wj and wj["dev"] > 1e-5:
+            probe_failures.append({"key": "fairness: the implicit candidate is not benchmarked on the system's own Jacobian",
+                                   "what": "during the benchmark the Jacobian handed to the implicit stepper at t=%s, y=%s deviates from the derivative of the right-hand side it integrates by %.3g (relative); the explicit candidate integrates that right-hand side" % (wj["t"], wj["y"], wj["dev"]),
+                                   "replay": {"kind": "bench", "task": tasks[2 * k]}})
         if r1["trains"][0] != r1["trains"][1]:
             probe_failures.append({"key": "fairness: candidates see different spike trains",
                                    "what": "check_stiffness with a Poisson stimulus, seed %s: explicit candidate got %d spikes, implicit got %d / different times" % (
@@ -257,6 +267,7 @@ def replay(payload):
         if len(res["trains"]) != 2:
             return False, "%d candidate benchmark(s) made (steppers %s)" % (len(res["trains"]), res.get("steppers"))
         ok = res["trains"][0] == res["trains"][1]
+        ok = ok and not (res.get("worst_jacobian") and res["worst_jacobian"]["dev"] > 1e-5)
         ok = ok and all(st["t"] != 0.0 or st["y"] == rp["task"].get("ivs", st["y"])[:len(st["y"])] for st in res.get("starts", {}).values())
         if "task2" in rp:
             res2 = C.run_tasks([rp["task2"]], timeout=400, stub=True)[0]
